@@ -453,6 +453,8 @@ class Impl(object):
         WITHOUT one of its variable definitions (default or selected platform, global or this stage), the component
         is resolved (this fills the cache of resolved configurations), the definition is put back through the public
         mutator set_platform_global_variable / set_platform_stage_variable with an explicit platform, then asked"""
+        if 'ask' in case:          # a corpus case may fix the way the question is put
+            return case['ask']
         h = zlib.crc32(json.dumps([case['doc'], case['platform'], case['stage'], case['name']], sort_keys=True,
                                   default=str).encode()) % 4
         if h == 2 and not case['files']:
@@ -526,6 +528,13 @@ class Impl(object):
                 try:
                     concrete.get_component_configuration((case['stage'], case['name']), raw=False, include_default=True,
                                                          is_primitive=True)
+                except Exception:
+                    pass
+                # ... and a lookup that tolerates type-conversion errors (what graph.py does for the memoization info):
+                # it must neither leave an undefined reference in place nor poison the cache of the strict lookup
+                try:
+                    concrete.get_component_configuration((case['stage'], case['name']), raw=False, include_default=True,
+                                                         ignore_convert_errors=True)
                 except Exception:
                     pass
             r = concrete.get_component_configuration((case['stage'], case['name']), raw=raw, include_default=True)
